@@ -322,7 +322,7 @@ def i_SH(ins, fmap):
 @__npc
 def i_SW(ins, fmap):
     dst, src = ins.operands
-    fmap[dst] = fmap(src)
+    fmap[dst] = fmap(src[0:32])
 
 
 @__npc
